@@ -1,5 +1,5 @@
 (* PropC08.v — property C08: typed remapping keeps every element and agrees with the text API. *)
-From PG Require Import Base Spec Stacktrace RemapProofs.
+From PG Require Import Base Spec Stacktrace RemapProofs StacktraceRoundtrip BridgeC08.
 
 Theorem C08_same_depth : forall rc rf t, depth (remap_typed rc rf t) = depth t.
 Proof. exact C08_depth. Qed.
@@ -21,6 +21,11 @@ Proof. exact C08_print. Qed.
 Theorem C08_typed_print_is_text_b : forall rc rf t,
   canonicalb t = true -> print_trace (remap_typed rc rf t) = remap_text rc rf (print_trace t).
 Proof. exact C08_print_b. Qed.
+
+(* the same under the syntactic well-formedness of C17 (plus: no CR inside components) *)
+Theorem C08_typed_print_is_text_wf : forall t, wf_trace_nocr t = true -> forall rc rf,
+  print_trace (remap_typed rc rf t) = remap_text rc rf (print_trace t).
+Proof. exact C08_print_wf. Qed.
 
 Check C08_same_depth : forall rc rf t, depth (remap_typed rc rf t) = depth t.
 Check C08_typed_print_is_text : forall rc rf t,
